@@ -52,6 +52,8 @@ pub struct Swarm {
     /// One anarchy of 130-300 attributes and encryption policies that are disjunctions of more
     /// than 128 of them (encapsulations with hundreds of components).
     pub broad: bool,
+    /// 128-135 further (empty) dimensions: the dimension count needs two bytes.
+    pub many_dims: bool,
 }
 
 #[derive(Clone, Copy, Debug, PartialEq, Eq)]
@@ -218,7 +220,7 @@ impl Swarm {
             sw.n_users = sw.n_users.min(3);
             sw.n_events = sw.n_events.min(30);
         }
-        if matches!(prop, "C05" | "C09" | "C10" | "C13") && rng.below(160) == 0 {
+        if matches!(prop, "C05" | "C09" | "C10" | "C13") && rng.below(160) == 0 && !sw.broad {
             // a huge structure: only master-key operations, edits and reloads
             sw.huge = true;
             sw.padded_names = false;
@@ -297,6 +299,7 @@ impl Swarm {
             alias_names: rng.pct(4),
             mega_burst: rng.pct(2),
             broad: false,
+            many_dims: matches!(prop, "C13" | "C09" | "C10") && rng.pct(2),
         }
     }
 }
@@ -390,7 +393,12 @@ fn invalid_pol(rng: &mut Rng, s: &MStruct, for_encryption: bool) -> Pol {
 }
 
 fn arg(rng: &mut Rng, p: Pol) -> PolArg {
-    PolArg::new(p, rng.next_u64())
+    let style = rng.next_u64();
+    if (style >> 40) % 12 == 0 && !matches!(p, Pol::Raw(_)) {
+        // one policy in twelve is handed over as a value built with the public constructors
+        return PolArg::new(Pol::Raw(Box::new(p)), style);
+    }
+    PolArg::new(p, style)
 }
 
 // ---------------------------------------------------------------------------------------------
@@ -474,12 +482,27 @@ impl Gen {
                 };
                 evs.push(Ev::ChurnIds { dim: dname.clone(), n });
             }
+            if di >= 1 && di + 1 == self.sw.n_dims && self.sw.big_ids && rng.pct(35) {
+                // an old authority: the id counter is at a 32- or 31-bit boundary, or far beyond
+                let ev = match rng.below(10) {
+                    0 => Ev::IdCounterJump { to: (1u64 << 31) - 1 + rng.below(3) as u64, back: None },
+                    1 => Ev::IdCounterJump { to: 1u64 << 40, back: None },
+                    2 => Ev::IdCounterJump { to: (1u64 << 63) + rng.below(3) as u64, back: None },
+                    3 => Ev::IdCounterJump { to: (1u64 << 32) - 1 + rng.below(3) as u64, back: None },
+                    // the next identifiers are congruent (mod 2^32, 2^31, 2^16, 2^48) to live ones
+                    4 => Ev::IdCounterJump { to: 1u64 << *rng.pick(&[16u32, 31, 48]), back: Some(rng.range(1, 3) as u8) },
+                    _ => Ev::IdCounterJump { to: 1u64 << 32, back: Some(rng.range(1, 3) as u8) },
+                };
+                evs.push(ev);
+            }
             let mut d = MDim { name: dname.clone(), hierarchy, attrs: vec![] };
             let cap = if self.sw.n_dims >= 4 { self.sw.max_attrs.min(2) } else { self.sw.max_attrs };
             let n_attrs = if self.sw.broad {
-                *rng.pick(&[130usize, 200, 257, 258, 300])
+                *rng.pick(&[130usize, 200, 257, 258, 300, 200, 257, 1030])
             } else if self.sw.huge {
-                rng.range(64, 72)
+                // (the second configuration's curve is several times slower: about 1 200 rights
+                // there, 5 000 in the default one)
+                if crate::wire::FEATURES.starts_with("p-256") { rng.range(32, 36) } else { rng.range(64, 72) }
             } else if di == 0 && self.sw.tall && self.sw.n_dims <= 2 {
                 rng.range(8, 10)
             } else if rng.pct(5) {
@@ -545,6 +568,12 @@ impl Gen {
                 }
             }
         }
+        if self.sw.many_dims {
+            // empty dimensions do not multiply rights
+            for k in 0..rng.range(126, 135) {
+                evs.push(Ev::AddDim { name: format!("e{k}"), hierarchy: rng.pct(50) });
+            }
+        }
         evs.push(Ev::Update);
         evs.push(Ev::Publish { to: (0..self.sw.n_encryptors).map(|e| (e, 0, false)).collect() });
         for _ in 0..self.sw.n_encryptors {
@@ -607,7 +636,7 @@ impl Gen {
         if self.sw.broad && rng.pct(50) {
             // a disjunction of k attributes of the big anarchy, k around the byte boundaries
             if let Some(d) = s.dims.iter().find(|d| d.attrs.len() >= 129) {
-                let k = (*rng.pick(&[127usize, 128, 129, 160, 255, 256, 257, 258])).min(d.attrs.len());
+                let k = (*rng.pick(&[127usize, 128, 129, 160, 255, 256, 257, 258, 1024, 1025, 1030])).min(d.attrs.len());
                 let mut idx: Vec<usize> = (0..d.attrs.len()).collect();
                 rng.shuffle(&mut idx);
                 // balanced tree (a 257-deep chain exceeds the JSON recursion limit of replay files)
@@ -986,6 +1015,12 @@ impl Gen {
             x if x == Op::Recaps as usize => {
                 let ks: Vec<usize> = (0..w.slots.len()).filter(|i| w.slots[*i].kind == SlotKind::Kem && w.slots[*i].bytes == w.slots[*i].orig).collect();
                 let slot = *rng.pick_opt(&ks)?;
+                // cost model: the master key tries every secret it holds on every component
+                let secrets: usize = w.auth.m.secrets.values().map(|c| c.revs.len()).sum();
+                let units = secrets * w.slots[slot].m.targets.len().max(1);
+                if units > 20_000 || (units > 6_000 && !rng.pct(20)) {
+                    return None;
+                }
                 let stale_from = if rng.pct(15) { Some(rng.below(w.encryptors.len())) } else { None };
                 Ev::Recaps { slot, stale_from }
             }
